@@ -5,7 +5,8 @@
    the data length; everything inside its allocation) — both defined in C13/Model.v. *)
 From Coq Require Import List ZArith Bool.
 From TskVerif Require Import Base.Common C13.Model C13.Rep C13.ColsProofs C13.UpdateProofs
-  C13.KeepProofs C13.RefineProofs C13.PackProofs C13.TotalProofs C13.SafeProofs C13.Accessors C13.Findings.
+  C13.KeepProofs C13.RefineProofs C13.PackProofs C13.TotalProofs C13.SafeProofs C13.KeepSafeProofs C13.HistoryProofs C13.FacadeProofs
+  C13.Accessors C13.Findings.
 From TskVerif Require Import Gen.Generated.
 Import ListNotations.
 Open Scope Z_scope.
@@ -184,6 +185,81 @@ Proof. exact truncate_total. Qed.
 Theorem c13_extend_safe : forall d t u idx,
   WF d t -> WF d u -> ok_or (extend_codes d) (snd (extend d t u idx)).
 Proof. exact extend_safe. Qed.
+
+Theorem c13_table_copy_safe : forall d t,
+  WF d t -> order_ok d -> ok_or overflow_codes (snd (table_copy d t)).
+Proof. exact table_copy_safe. Qed.
+
+(* update_row, both paths (in place / copy + truncate + add_row + extend) *)
+Theorem c13_update_row_safe : forall d t i r,
+  WF d t -> order_ok d -> row_ok d r = true -> ok_or (extend_codes d) (snd (update_row d t i r)).
+Proof. exact update_row_safe. Qed.
+
+(* keep_rows: the reference check and the in-place compaction loops *)
+Theorem c13_keep_rows_safe : forall d t keep,
+  WF d t -> zlen keep = nrows t -> ok_or (keep_codes d) (keep_rows d t keep).
+Proof. exact keep_rows_safe. Qed.
+
+(* every operation of every history: run any list of operations from any table satisfying
+   the invariant (e.g. the empty one), continuing after the operations that are refused, and
+   stopping only at a 2^31-row / 2^64-cell overflow: every status is Ok or a documented error
+   code — never OOB, never a failed tsk_bug_assert — and the invariant holds at the end *)
+Theorem c13_history_safe : forall d, order_ok d -> td_mdlen_bug d = false -> forall ops t,
+  WF d t ->
+  Forall (ok_or (all_codes d)) (fst (crun_all d t ops)) /\
+  (Forall (fun st => is_overflow st = false) (fst (crun_all d t ops)) -> WF d (snd (crun_all d t ops))).
+Proof. exact history_safe. Qed.
+
+Theorem c13_step_safe_wf_refines : forall d t o,
+  WF d t -> order_ok d -> td_mdlen_bug d = false ->
+  ok_or (all_codes d) (snd (cstep d t o)) /\
+  (is_overflow (snd (cstep d t o)) = false -> WF d (fst (cstep d t o))) /\
+  (forall t', cstep d t o = (t', Ok tt) -> abs t' = lstep d (abs t) o).
+Proof.
+  intros d t o W O Hb. split; [apply cstep_status; assumption|]. split; [apply cstep_wf; assumption|].
+  intros t' S. apply (proj2 (cstep_refines _ _ _ _ W O S)).
+Qed.
+
+(* ---- the Python facade: index normalisation = Python list indexing on abs ---- *)
+Theorem c13_getitem_int : forall d t i,
+  WF d t ->
+  (- nrows t <= i < nrows t -> py_getitem d t i = Ok (nth (Z.to_nat (i mod nrows t)) (abs t) row0)) /\
+  (i < - nrows t \/ nrows t <= i -> py_getitem d t i = Err PY_INDEX_ERROR).
+Proof. exact py_getitem_int. Qed.
+
+Theorem c13_setitem_int : forall d t i r t',
+  WF d t -> order_ok d -> py_setitem d t i r = (t', Ok tt) ->
+  - nrows t <= i < nrows t /\ WF d t' /\ abs t' = replace_nth (Z.to_nat (i mod nrows t)) r (abs t).
+Proof. exact py_setitem_int. Qed.
+
+Theorem c13_getitem_mask : forall d t m rows,
+  WF d t -> zlen m = nrows t ->
+  py_getitem_idx_gen true d t (flatnonzero 0 m) = Ok rows -> rows = filter_mask m (abs t).
+Proof. exact py_getitem_mask. Qed.
+
+Theorem c13_slice_step1 : forall (rows : list row) a b,
+  0 <= a <= b -> b <= zlen rows ->
+  rows_at rows (slice_indices (zlen rows) (Some a) (Some b) 1)
+  = firstn (Z.to_nat (b - a)) (skipn (Z.to_nat a) rows).
+Proof. exact slice_step1. Qed.
+
+Theorem c13_slice_whole : forall rows : list row,
+  rows_at rows (slice_indices (zlen rows) None None 1) = rows.
+Proof. exact slice_whole. Qed.
+
+(* bridge to C02: the arrays Python sees have the shape C02/Spec.v's WF assumes *)
+Theorem c13_asdict_has_C02_shape : forall d t,
+  WF d t ->
+  Forall (fun c => zlen c = nrows t) (fst (asdict t)) /\
+  Forall (fun x => match x with
+                   | Some (data, offs) =>
+                       zlen offs = nrows t + 1 /\
+                       forall j, 0 <= j < nrows t ->
+                         0 <= nth (Z.to_nat j) offs 0 <= nth (Z.to_nat (j + 1)) offs 0 /\
+                         nth (Z.to_nat (j + 1)) offs 0 <= zlen data
+                   | None => False
+                   end) (snd (asdict t)).
+Proof. exact asdict_has_C02_shape. Qed.
 
 (* (g) completed: for either variant of the code (pinned / F14-repaired), when the binding's
    dimension checks pass (parse_cols) the call succeeds IFF check_offsets passes for every
